@@ -78,7 +78,15 @@ func enclosingObj(data []byte, p int) int {
 // mutateOnce applies one random mutation.
 func mutateOnce(rng *rand.Rand, data []byte, other []byte) ([]byte, Mutation) {
 	for try := 0; try < 8; try++ {
-		switch rng.Intn(12) {
+		switch rng.Intn(14) {
+		case 12, 13: // a typed-number mutant of any numeric dictionary entry or array element (zoo.go)
+			sites := typedSites(data)
+			if len(sites) == 0 {
+				continue
+			}
+			site := sites[rng.Intn(len(sites))]
+			val := typedValues[rng.Intn(len(typedValues))]
+			return applyTyped(data, site, val), Mutation{"typed", site.key}
 		case 0, 1, 2: // numeric tampering of a structural key
 			ms := numKeyPat.FindAllSubmatchIndex(data, 300)
 			if len(ms) == 0 {
